@@ -218,6 +218,28 @@ impl<'a, T: Queryable> Pointer<'a, T> {
 
         Pointer { inner, path }
     }
+    /// Pointer to the member `key`, where `key` is a name taken from the data (wildcard,
+    /// descendant and filter steps) rather than from the query text: the step is rendered as a
+    /// Normalized Path name selector (RFC 9535 section 2.7).
+    pub fn member(inner: &'a T, path: QueryPath, key: &str) -> Self {
+        let mut path = path;
+        path.push_str("['");
+        for c in key.chars() {
+            match c {
+                '\u{0008}' => path.push_str("\\b"),
+                '\t' => path.push_str("\\t"),
+                '\n' => path.push_str("\\n"),
+                '\u{000C}' => path.push_str("\\f"),
+                '\r' => path.push_str("\\r"),
+                '\'' => path.push_str("\\'"),
+                '\\' => path.push_str("\\\\"),
+                c if c < ' ' => path.push_str(&format!("\\u{:04x}", c as u32)),
+                c => path.push(c),
+            }
+        }
+        path.push_str("']");
+        Pointer { inner, path }
+    }
     pub fn idx(inner: &'a T, path: QueryPath, index: usize) -> Self {
         Pointer {
             inner,
